@@ -1,6 +1,6 @@
 CONSTANTS
-  Vals = {1,2,3,4,5,6}
-  MaxN = 3
+  Vals = {1,2,3}
+  MaxN = 6
   Ks = {1}
 INIT Init
 NEXT Next
